@@ -205,7 +205,21 @@ class Session:
                     ids(x[-1])
 
             ids(body)
-            return (self.tree.count, body, idx)
+            header = None
+            if self.typed and self.flavour in ("str", "expl", "int"):
+                # what a typed tree would write as the header of a saved document (the census of kinds in use) is part of what
+                # a caller can observe, too
+                try:
+                    import io as _io
+                    import json as _json
+
+                    fp = _io.StringIO()
+                    self.tree.save(fp, mapper=lambda node, data: data)
+                    meta = _json.loads(fp.getvalue())["meta"]
+                    header = sorted((k, repr(v)) for k, v in meta.items() if k != "$timestamp")
+                except Exception as e:  # noqa: BLE001
+                    header = type(e).__name__
+            return (self.tree.count, body, idx, header)
         except Exception as e:
             return ("UNREADABLE", repr(e))
 
